@@ -530,9 +530,12 @@ func (vc *VC) frameObligations(kindPfx string, entry, exit *State, guard Term, m
 				if m.key != k {
 					continue
 				}
-				if m.whole {
+				switch {
+				case m.all:
+					cover = append(cover, m.condOrTrue())
+				case m.whole:
 					cover = append(cover, And(m.condOrTrue(), Eq(o, m.obj)))
-				} else {
+				default:
 					cover = append(cover, And(m.condOrTrue(), Eq(o, m.obj), Le(m.lo, j), Lt(j, m.hi)))
 				}
 			}
